@@ -745,7 +745,7 @@ fn caps(out: &mut String) {
 #[derive(Clone, Copy, PartialEq, Debug)]
 pub enum Mode { Seq, Lend, LendFe, LendGet, LendGetW, Tree, Par, Unc }
 #[derive(Clone, Copy, PartialEq, Debug)]
-pub enum Via { Foreach, Map, Collect, Count, FindFirst(u32), FindLast(u32) }
+pub enum Via { Foreach, Map, Collect, Count, FindFirst(u32), FindLast(u32), Skip(usize), Nth(usize), StepBy(usize) }
 #[derive(Clone, Copy, Debug)]
 pub enum Probe { H(u32, i32), U(u32) }
 
@@ -837,6 +837,12 @@ impl Shape {
     fn has_bits(&self) -> bool { self.members.split(' ').any(|m| m.trim_start_matches('?').starts_with('B')) }
 }
 
+/// Indices of the items an adaptor delivered: `a,b,c`, `-` for none, `?` when an item does not reveal its index.
+fn put_revealed(v: Vec<Option<u32>>, out: &mut String) {
+    if v.iter().any(|i| i.is_none()) { out.push('?'); }
+    else if v.is_empty() { out.push('-'); }
+    else { out.push_str(&v.iter().map(|i| i.unwrap().to_string()).collect::<Vec<_>>().join(",")); }
+}
 static POOLS: Mutex<Vec<(usize, &'static rayon::ThreadPool)>> = Mutex::new(Vec::new());
 fn pool_for(n: usize) -> &'static rayon::ThreadPool {
     let mut g = POOLS.lock().unwrap();
@@ -858,11 +864,21 @@ macro_rules! arm {
         $($pre)*
         let mut acc = Acc::new();
         let j = $e;
+        // the iterator adaptors a caller may consume the join through (separate read-only passes, see `exec_op`): the
+        // indices delivered, judged by the driver against the plain join's
+        if let Via::Skip(k) = $op.via {
+            put_revealed(j.join().skip(k).map(|item| item.reveal()).collect(), $out);
+        } else if let Via::Nth(k) = $op.via {
+            put_revealed(j.join().nth(k).map(|item| item.reveal()).into_iter().collect(), $out);
+        } else if let Via::StepBy(k) = $op.via {
+            put_revealed(j.join().step_by(k.max(1)).map(|item| item.reveal()).collect(), $out);
+        } else {
         match $op.take {
             Some(t) => { for mut item in j.join().take(t) { acc.visit(&mut item); } }
             None => { for mut item in j.join() { acc.visit(&mut item); } }
         }
         acc.finish($out);
+        }
     }};
     (lend, $x:ident, $op:ident, $out:ident, { $($pre:tt)* }, $e:expr) => {{
         $($pre)*
@@ -958,7 +974,7 @@ macro_rules! arm {
                 let items = pool.install(|| j.par_join().collect::<Vec<_>>());
                 items.into_iter().map(|mut item| visit_par(&mut item)).collect()
             }
-            Via::Count | Via::FindFirst(_) | Via::FindLast(_) => unreachable!(),
+            Via::Count | Via::FindFirst(_) | Via::FindLast(_) | Via::Skip(_) | Via::Nth(_) | Via::StepBy(_) => unreachable!(),
         };
         finish_par(v, $out);
         }
@@ -1060,6 +1076,19 @@ fn exec_op(h: &mut H, op: &JoinOp, out: &mut String) {
                 let got = if rc.is_ok() { tmp.trim().to_string() } else { "panic".to_string() };
                 let _ = write!(out, " !{}{}={}", if last { "fl" } else { "ff" }, t, got);
             }
+        }
+    }
+    // sequential joins consumed through `skip` / `nth` / `step_by` (read-only joins without `take`): `!sk<k>=` / `!nth<k>=` /
+    // `!sb<k>=` tokens with the indices delivered (`-` = none, `?` = the items do not reveal their index)
+    if op.mode == Mode::Seq && op.members_read_only && op.take.is_none() && r.is_ok() {
+        for (tag, via) in [("sk1", Via::Skip(1)), ("sk3", Via::Skip(3)), ("nth1", Via::Nth(1)), ("nth2", Via::Nth(2)),
+                           ("sb2", Via::StepBy(2)), ("sb3", Via::StepBy(3))] {
+            let mut opf = op.clone();
+            opf.via = via;
+            let mut tmp = String::new();
+            let rc = catch_unwind(AssertUnwindSafe(|| (sh.run)(h, &opf, &mut tmp)));
+            let got = if rc.is_ok() { tmp.trim().to_string() } else { "panic".to_string() };
+            let _ = write!(out, " !{}={}", tag, got);
         }
     }
     let hook_missing = out[mark..].starts_with("nohook");
